@@ -315,13 +315,26 @@ def make_chain(rng):
             if isinstance(d, M.Protocol):
                 d.steps.append(("evolast", M.Named("EvoTail"), False))
         tails = ("EvoTail",)
+    # a record that is reached through an optional and as a union case (the readers materialise those in temporaries of
+    # their own) and that gains a fixed-length-vector field in a later version
+    fvr = ()
+    rp = rng.fork("evopoint")
+    if rp.chance(0.6):
+        fn0 = sorted(base.files)[0]
+        base.files[fn0].append(M.Record("EvoPoint", (), [("id", M.Prim("int32")), ("label", M.Prim("string"))]))
+        for d in base.defs():
+            if isinstance(d, M.Protocol) and d.name != "EvoStill":
+                d.steps.append(("evo40", M.Opt(M.Named("EvoPoint")), False))
+                d.steps.append(("evo41", M.Union((("EvoPoint", M.Named("EvoPoint")), ("string", M.Prim("string")))), True))
+                d.steps.append(("evo42", M.Named("EvoPoint"), rp.chance(0.5)))
+        fvr = ("EvoPoint",)
     # ... and one protocol that none of the above touches: it stays as it is through (nearly) all versions, so that the
     # version tables of the generated code have entries that merely repeat the current schema
     base.files[sorted(base.files)[0]].append(M.Protocol("EvoStill", [("count", M.Prim("int32"), False), ("names", M.Prim("string"), True), ("gains", M.Vec(M.Prim("float32")), False)]))
     k = rng.fork("chainshape")
     newest = E.with_versions(base, rng.fork("ver"), k.choice([1, 2, 2, 3]), partial=True, must_edit=must,
                              order=k.choice(["oldest_first", "oldest_first", "newest_first", "shuffled"]), p_new_protocol=k.choice([0.0, 0.4]),
-                             widen_steps=("evo3", "evo4", "evo6", "evo7", "evo10"), widen_aliases=wal, union_steps=ust, to_union_steps=tust, tail_records=tails)
+                             widen_steps=("evo3", "evo4", "evo6", "evo7", "evo10"), widen_aliases=wal, union_steps=ust, to_union_steps=tust, tail_records=tails, fixed_vector_records=fvr)
     # where the previous versions come from: directories next to the package, or commits of one git repository named by URL
     newest.versions_from_git = k.fork("git").chance(0.3)
     return newest
